@@ -25,7 +25,7 @@ binding:   (a) spec -> code: every CASE x k concretizations is fed to the real p
            by line text; UnmodifiedLossless, Isolation, InputUntouched; negative control
            SharedTokens = TRUE): the previous document is kept alive and re-dumped / its input
            re-tokenized after the next parse; for every 2nd case (thorough: every case of <= 4 lines, every
-           2nd 5-line case) the same lines
+           3rd 5-line case) the same lines
            are parsed as iterator, generator and twice as the same list object (the list must come
            back untouched), the first result is edited through the public API (set / delete / sort /
            append / insert), a different document sharing its lines (the CASE without the last line)
@@ -1010,8 +1010,8 @@ def run(ctx):
         for cases, styles in plan:
             for c in cases:
                 by_len[len(c["ls"])] = by_len.get(len(c["ls"]), 0) + 1
-            # shared-state scenario: every 2nd case (quick); every case, every 2nd 5-line case (thorough)
-            every = 2 if quick or (cases and len(cases[0]["ls"]) >= 5) else 1
+            # shared-state scenario: every 2nd case (quick); every case, every 3rd 5-line case (thorough)
+            every = 2 if quick else (3 if cases and len(cases[0]["ls"]) >= 5 else 1)
             n_replayed += replay_cases(ctx, cases, styles, index, every, stats)
             if len(ctx.violations) >= ctx.max_violation_files:
                 break
@@ -1028,7 +1028,7 @@ def run(ctx):
 
         # 4. code -> spec
         if len(ctx.violations) < ctx.max_violation_files:
-            ndocs, batch = (1200, 1200) if quick else (12000, 4000)
+            ndocs, batch = (1200, 1200) if quick else (9000, 3000)
             record_and_validate(ctx, g, ndocs, 40, batch, stats)
             ctx.traces += ndocs
             ctx.evaluations += ndocs
